@@ -37,7 +37,7 @@ TABLE = {
                      "AcqVerif.C07.idle_runtime_is_clean", "AcqVerif.C07.refusal_wakes_a_sleeping_source", "AcqVerif.C07.stop_never_waits_for_an_orphaned_sleeper",
                      "AcqVerif.Runtime.TInvAll.micro", "AcqVerif.Runtime.DWake.micro", "AcqVerif.Runtime.DStop.micro", "AcqVerif.Runtime.Reach.micro"],
         "classes": ["abort", "abortmon", "holdmon", "trig", "avgabort", "stofault", "restart", "reconf", "twofail", "trigfault", "avgf32", "avgabortmon", "drop2"],
-        "kinds": ("still-running-after", "state-after", "never-returns", "stored-", "camera-delivered", "CRASH", "monitor-frame-not-from"),
+        "kinds": ("still-running-after", "state-after", "never-returns", "stored-", "camera-delivered", "CRASH", "monitor-frame-not-from", "leftover-"),
         "what": "abort/stop from any moment (ring full, client holding data, trigger wait, averaging, finished) return, leave workers finished, devices "
                 "stopped, runtime Armed, storage with a gap-free prefix, and the next acquisition complete",
     },
